@@ -6,12 +6,13 @@ from math import pi
 import numpy as np
 
 
-def make_space(spl, npts, degrees=(3, 3, 3, 3), domain=None, period=(False, True, True, False)):
-    """-> (eta_grids, bsplines, breaks) for dimensions (r, theta, z, v) (or fewer)"""
+def make_space(spl, npts, degrees=(3, 3, 3, 3), domain=None, period=(False, True, True, False), force_general=False):
+    """-> (eta_grids, bsplines, breaks) for dimensions (r, theta, z, v) (or fewer).
+    force_general: declare the knots non-uniform so that cubic spaces also take the general path"""
     nkts = [n + 1 + d * (int(p) - 1) for n, d, p in zip(npts, degrees, period)]
     breaks = [np.linspace(lims[0], lims[1], num=num) for lims, num in zip(domain, nkts)]
     knots = [spl.make_knots(b, int(d), bool(p)) for b, d, p in zip(breaks, degrees, period)]
-    bsplines = [spl.BSplines(k, int(d), bool(p), True) for k, d, p in zip(knots, degrees, period)]
+    bsplines = [spl.BSplines(k, int(d), bool(p), not force_general) for k, d, p in zip(knots, degrees, period)]
     eta = [np.asarray(b.greville) for b in bsplines]
     return eta, bsplines, breaks
 
